@@ -245,6 +245,24 @@ def observe(data):
             outcome = f"RAISED {type(e).__name__}"
             if fail is None:
                 fail = f"the checked loader raised {type(e).__name__}: {e} instead of UnsafeFileError"
+    # the verdict is asked a second and a third time on the SAME object (plain, then with a report file
+    # again): the check must answer every time, with the same report (seeded change C19 r5: a cached
+    # interpreter released after the first analysis)
+    if fail is None:
+        for again, kw in (("second", {}), ("third", {"json_output_path": jpath + ".3"})):
+            try:
+                if os.path.exists(jpath + ".3"):
+                    os.unlink(jpath + ".3")
+                rep2 = check_safety(p, **kw).to_dict()
+            except RecursionError:
+                break
+            except Exception as e:
+                fail = (f"the {again} safety check of the same Pickled object raised {type(e).__name__}: {e} "
+                        f"(the first one answered {getattr(sev, 'name', sev)})")
+                break
+            if rep2 != rep:
+                fail = f"the {again} safety check of the same Pickled object reports {canon(rep2)}, the first {canon(rep)}"
+                break
     real = "OK %s | %s | %s | %s | %s" % (
         sev.name if isinstance(sev, Severity) else "?", " ".join(sorted(fs)), canon(rep),
         canon(filed) if filed is not None else "NOFILE", outcome)
